@@ -400,6 +400,11 @@ func ParseContracts(files map[string]string) (*Contracts, error) {
 				cs.Guards = append(cs.Guards, g)
 				curGuard = g
 				cur = nil
+			case "sig":
+				cur, curGuard = nil, nil
+			case "fields":
+				// recorded struct field lists (specs/fields.spec): read by the rebinding step, not a contract
+				cur, curGuard = nil, nil
 			case "names":
 				// names key(recv, a, b) locals x, y, z
 				head, locs := rest, ""
